@@ -425,6 +425,8 @@ def join(a, b):
         return ArrS(join(a.elem, b.elem), join(a.n, b.n))
     if ta is Ref:
         return TOP
+    if hasattr(a, "join_with"):
+        return a.join_with(b)
     if ta is It:
         items = a.items + b.items
         e = BOT
